@@ -1248,7 +1248,267 @@ func (ts *trialState) removedSince(s *sub) bool {
 	return false
 }
 
+// ---------------------------------------------------------------------------
+// Mode "idle": the last thing a restricted '*' STREAM subscriber's sender
+// processes is a notification of a DENIED target, then nothing happens for
+// several send timeouts, then an authorised update is written. The statement
+// demands that it is still delivered ("everything for authorised targets is
+// still delivered"): withholding a notification must leave nothing behind that
+// later ends the RPC. The server's send timeout is the only timer involved;
+// with nothing being sent a correct server has no armed timer, so waiting
+// longer can only make a wrongly armed one more certain to fire (one-sided).
+
+type idleCfg struct {
+	Timeout     time.Duration
+	Targets     []string
+	Origin      string
+	Allow       map[string]bool // row of user u0
+	Denied      string          // target of the last, withheld, item
+	Allowed     string          // target of the sentinels
+	Kind        string          // update, delete, reset, remove
+	UpdatesOnly bool
+}
+
+type idleOutcome struct {
+	skip      string // non-empty: the probe could not be set up / judged
+	ended     bool   // the restricted subscriber's RPC ended on its own
+	err       error
+	twinEnded bool // so did the unrestricted twin's (then the cause is not the withheld item)
+	delivered bool
+	leak      string
+	tail      []string
+	responses int
+}
+
+type idleSub struct {
+	stream *vlib.Stream
+	done   chan struct{}
+	err    error
+}
+
+func (s *idleSub) isDone() bool {
+	select {
+	case <-s.done:
+		return true
+	default:
+		return false
+	}
+}
+
+func idleScenario(cfg *idleCfg, idleFactor float64) (out idleOutcome) {
+	acl := &aclTable{allow: map[string]map[string]bool{"u0": cfg.Allow, "root": {}}, fail: map[string]bool{}}
+	for _, t := range cfg.Targets {
+		acl.allow["root"][t] = true
+	}
+	c := cache.New(cfg.Targets)
+	srv, _ := subscribe.NewServer(c, subscribe.WithACL(acl), subscribe.WithTimeout(cfg.Timeout))
+	c.SetClient(srv.Update)
+	var ts, val int64
+	upd := func(t string, p []string) int64 {
+		ts++
+		val++
+		c.GnmiUpdate(gen.Update(t, cfg.Origin, ts, nil, gen.Path(false, p...), gen.I(val)))
+		return val
+	}
+	for _, t := range cfg.Targets {
+		for _, p := range [][]string{{"a", "x", "l0"}, {"a", "y", "l0"}, {"b", "z", "l0"}} {
+			upd(t, p)
+		}
+	}
+	start := func(user string) *idleSub {
+		sl := &pb.SubscriptionList{Prefix: &pb.Path{Target: "*", Origin: cfg.Origin}, Mode: pb.SubscriptionList_STREAM, UpdatesOnly: cfg.UpdatesOnly,
+			Subscription: []*pb.Subscription{{Path: gen.Path(false)}}}
+		s := &idleSub{stream: vlib.NewStream(context.Background(), user), done: make(chan struct{})}
+		s.stream.Push(&pb.SubscribeRequest{Request: &pb.SubscribeRequest_Subscribe{Subscribe: sl}})
+		go func() {
+			defer close(s.done)
+			defer func() {
+				if p := recover(); p != nil {
+					s.err = fmt.Errorf("panic: %v", p)
+				}
+			}()
+			s.err = srv.Subscribe(s.stream)
+		}()
+		return s
+	}
+	a, twin := start("u0"), start("root")
+	defer func() {
+		log := a.stream.Sent()
+		out.responses = len(log)
+		for i := len(log) - 6; i < len(log); i++ {
+			if i >= 0 {
+				out.tail = append(out.tail, compact(log[i]))
+			}
+		}
+		for _, m := range log {
+			if n := m.GetUpdate(); n != nil && !cfg.Allow[n.GetPrefix().GetTarget()] && out.leak == "" {
+				out.leak = compact(m)
+			}
+		}
+		a.stream.Cancel()
+		twin.stream.Cancel()
+		for _, s := range []*idleSub{a, twin} {
+			select {
+			case <-s.done:
+			case <-time.After(30 * time.Second):
+			}
+		}
+	}()
+	// waitFor: pred on the log of s; false when the RPC ended or 40 s passed.
+	waitFor := func(s *idleSub, pred func(sent []*pb.SubscribeResponse) bool) bool {
+		ctx, cancel := context.WithTimeout(context.Background(), 40*time.Second)
+		defer cancel()
+		go func() {
+			select {
+			case <-s.done:
+				cancel()
+			case <-ctx.Done():
+			}
+		}()
+		return s.stream.WaitSent(ctx, pred)
+	}
+	hasSync := func(sent []*pb.SubscribeResponse) bool {
+		for _, m := range sent {
+			if m.GetSyncResponse() {
+				return true
+			}
+		}
+		return false
+	}
+	hasVal := func(v int64) func(sent []*pb.SubscribeResponse) bool {
+		return func(sent []*pb.SubscribeResponse) bool {
+			for i := len(sent) - 1; i >= 0; i-- {
+				if u := sent[i].GetUpdate(); u != nil && len(u.Update) == 1 && u.Update[0].GetVal().GetIntVal() == v {
+					return true
+				}
+			}
+			return false
+		}
+	}
+	// 1. Both registered (sync seen) and drained (first sentinel of an allowed target seen).
+	if !waitFor(a, hasSync) || !waitFor(twin, hasSync) {
+		out.skip = "no sync_response before the probe"
+		return
+	}
+	v1 := upd(cfg.Allowed, []string{sentA, "end", "end"})
+	if !waitFor(a, hasVal(v1)) || !waitFor(twin, hasVal(v1)) {
+		out.skip = "first sentinel not delivered before the probe (the 'acl' mode's clause)"
+		return
+	}
+	// 2. Let every timer a legitimate send may have armed run out; whoever ends
+	// here ended because of a slow send under load, not because of the probe.
+	time.Sleep(2 * cfg.Timeout)
+	if a.isDone() || twin.isDone() {
+		out.skip = "an RPC ended before the probe (send timeout hit by a slow send under load)"
+		return
+	}
+	// 3. The last item: something of the denied target.
+	mark := twin.stream.NSent()
+	switch cfg.Kind {
+	case "update":
+		upd(cfg.Denied, []string{"a", "x", "l0"})
+	case "delete":
+		ts++
+		c.GnmiUpdate(gen.Delete(cfg.Denied, cfg.Origin, ts, nil, gen.Path(false, "a")))
+	case "reset":
+		c.Reset(cfg.Denied)
+	case "remove":
+		c.Remove(cfg.Denied)
+	}
+	if !waitFor(twin, func(sent []*pb.SubscribeResponse) bool {
+		for i := mark; i < len(sent); i++ {
+			if n := sent[i].GetUpdate(); n != nil && n.GetPrefix().GetTarget() == cfg.Denied {
+				return true
+			}
+		}
+		return false
+	}) {
+		out.skip = "the unrestricted twin did not receive the probe notification"
+		return
+	}
+	// 4. Idle.
+	time.Sleep(5*time.Millisecond + time.Duration(idleFactor*float64(cfg.Timeout)))
+	// 5. A fresh authorised update must still arrive, on a live RPC.
+	out.twinEnded = twin.isDone()
+	if !a.isDone() {
+		v2 := upd(cfg.Allowed, []string{sentA, "end", "end"})
+		out.delivered = waitFor(a, hasVal(v2))
+	}
+	if a.isDone() {
+		out.ended, out.err = true, a.err
+		out.delivered = false
+	}
+	return
+}
+
+func runIdleTrial(r *vlib.Run, mode string, trial int, rng *rand.Rand) {
+	runtime.GOMAXPROCS(16)
+	cfg := &idleCfg{Timeout: time.Duration(50+rng.Intn(101)) * time.Millisecond, Allow: map[string]bool{}}
+	nT := 2 + rng.Intn(2)
+	for i := 0; i < nT; i++ {
+		t := fmt.Sprintf("T%d", i)
+		cfg.Targets = append(cfg.Targets, t)
+		cfg.Allow[t] = rng.Intn(2) == 0
+	}
+	// At least one denied and one allowed target.
+	d := rng.Intn(nT)
+	al := (d + 1 + rng.Intn(nT-1)) % nT
+	cfg.Allow[cfg.Targets[d]], cfg.Allow[cfg.Targets[al]] = false, true
+	cfg.Denied, cfg.Allowed = cfg.Targets[d], cfg.Targets[al]
+	if rng.Intn(2) == 0 {
+		cfg.Origin = "oc"
+	}
+	cfg.Kind = []string{"update", "delete", "reset", "remove"}[trial%4]
+	cfg.UpdatesOnly = (trial/4)%3 == 2
+	wit := func(o idleOutcome) map[string]interface{} {
+		return map[string]interface{}{"send_timeout_ms": cfg.Timeout.Milliseconds(), "targets": cfg.Targets, "origin": cfg.Origin, "acl_row_of_subscriber": cfg.Allow, "last_item": cfg.Kind + " of denied target " + cfg.Denied, "sentinel_target": cfg.Allowed, "updates_only": cfg.UpdatesOnly, "status": fmt.Sprint(o.err), "responses": o.responses, "last_responses": o.tail}
+	}
+	o := idleScenario(cfg, 3.5)
+	r.Eval(1)
+	if o.leak != "" {
+		r.Violation(mode, trial, "leak:idle-probe", fmt.Sprintf("the restricted '*' STREAM subscriber received [%s], a notification of a target its ACL row denies", o.leak), wit(o))
+		return
+	}
+	if o.skip != "" {
+		r.Count("idle_probe_not_judged", 1)
+		r.Inconclusive("idle-after-denied probe not judged: " + o.skip)
+		return
+	}
+	r.Count("idle_probes_judged_last_item_"+cfg.Kind, 1)
+	r.Distinct(vlib.Hash(mode, trial))
+	switch {
+	case o.ended && o.twinEnded:
+		r.Count("idle_probe_both_RPCs_ended_not_attributable", 1)
+		r.Inconclusive("idle-after-denied probe: the unrestricted twin's RPC ended as well, so the end is not attributable to the withheld notification")
+	case o.ended:
+		// Confirm on fresh instances with a longer idle period: a send timeout
+		// hit by a slow send under load does not repeat, a wrongly armed timer does.
+		again := 0
+		for k := 0; k < 2; k++ {
+			if o2 := idleScenario(cfg, 6); o2.skip == "" && o2.ended && !o2.twinEnded {
+				again++
+			}
+		}
+		if again < 2 {
+			r.Count("idle_probe_RPC_end_not_reproduced", 1)
+			r.Inconclusive("idle-after-denied probe: the RPC ended once but not on both repetitions (send timeout hit under load)")
+			return
+		}
+		r.Violation(mode, trial, "authorised-subscription-ended:idle-after-denied", fmt.Sprintf("a '*' STREAM subscriber (user denied %s, send timeout %v) whose sender last processed a withheld %s of %s and then had nothing to send for 3.5 send timeouts: its RPC ended on its own with %q, so the next update of authorised target %s was never delivered; the unrestricted twin stayed up; reproduced on 2 of 2 fresh repetitions", cfg.Denied, cfg.Timeout, cfg.Kind, cfg.Denied, fmt.Sprint(o.err), cfg.Allowed), wit(o))
+	case !o.delivered:
+		r.Violation(mode, trial, "authorised-data-not-delivered:stuck", fmt.Sprintf("after a withheld %s of denied target %s and an idle period, an update of authorised target %s was not delivered within 40 s although the RPC is still up and the system idle", cfg.Kind, cfg.Denied, cfg.Allowed), wit(o))
+	default:
+		r.Count("idle_probes_held_RPC_alive_and_authorised_update_delivered", 1)
+	}
+	if r.WantSample() && trial%16 == 5 {
+		r.Sample(map[string]interface{}{"mode": "idle", "trial": trial, "config": wit(o), "rpc_ended": o.ended, "authorised_update_delivered_after_idle": o.delivered})
+	}
+}
+
 func body(r *vlib.Run) {
+	r.ForTrials("idle", r.N(40, 640), func(trial int, rng *rand.Rand) {
+		runIdleTrial(r, "idle", trial, rng)
+	})
 	r.ForTrials("acl", r.N(640, 12000), func(trial int, rng *rand.Rand) {
 		if r.NViolations() >= 12 {
 			return // the tree is broken; more witnesses of the same kind add nothing
@@ -1264,6 +1524,9 @@ func postMerge(tier string, c map[string]int64) []string {
 			out = append(out, "no unrestricted twin received a "+k+" for a target denied to its restricted sibling: that part of the filter was not exercised")
 		}
 	}
+	if c["idle_probes_held_RPC_alive_and_authorised_update_delivered"] == 0 {
+		out = append(out, "no idle-after-denied probe ran to a 'held' verdict")
+	}
 	for _, k := range []string{"denied_single_target_PermissionDenied_target_present_throughout", "unauthenticated_rejected_silently", "twin_pairs_equal", "subscriber_logs_converged_to_restricted_cache"} {
 		if c[k] == 0 {
 			out = append(out, "oracle branch never taken: "+k)
@@ -1275,7 +1538,7 @@ func postMerge(tier string, c map[string]int64) []string {
 func main() {
 	vlib.Main(&vlib.Spec{
 		ID:   "C07",
-		Rule: "Each trial: real cache + subscribe.Server with a scripted ACL (2-3 table users x 2-4 targets, random rows incl. all-deny and all-allow, an all-allow user 'root' for twins, a user whose NewRPCACL fails; every 16th trial on average NewRPCACL fails for everybody), cache pre-filled, one writer per target issuing 30-180 operations: updates (unique values) / leaf and subtree deletes / Reset / Remove + re-Add, 3-7 subscriptions (ONCE, POLL with 0-2 interactive triggers, STREAM, STREAM+updates_only; single target or '*'; 1-2 wildcard paths) started at seeded moments, an unrestricted twin for every restricted '*' STREAM subscription, and after logical quiescence (C04's sentinel protocol) ONCE/POLL '*' twin pairs per user plus one single-target call on the unchanging cache; GOMAXPROCS in {2,4,16}; seeded delays and long holds at 7 schedule points. Every response of every stream is judged online against the table. A trial is distinct non-trivial when at least one non-vacuous clause was decided in it (an unrestricted twin received data the restricted sibling had to be denied, or a denied single-target call or an unauthenticated call was judged) and its sequence of schedule points is new.",
+		Rule: "Each trial: real cache + subscribe.Server with a scripted ACL (2-3 table users x 2-4 targets, random rows incl. all-deny and all-allow, an all-allow user 'root' for twins, a user whose NewRPCACL fails; every 16th trial on average NewRPCACL fails for everybody), cache pre-filled, one writer per target issuing 30-180 operations: updates (unique values) / leaf and subtree deletes / Reset / Remove + re-Add, 3-7 subscriptions (ONCE, POLL with 0-2 interactive triggers, STREAM, STREAM+updates_only; single target or '*'; 1-2 wildcard paths) started at seeded moments, an unrestricted twin for every restricted '*' STREAM subscription, and after logical quiescence (C04's sentinel protocol) ONCE/POLL '*' twin pairs per user plus one single-target call on the unchanging cache; GOMAXPROCS in {2,4,16}; seeded delays and long holds at 7 schedule points. Every response of every stream is judged online against the table. A trial is distinct non-trivial when at least one non-vacuous clause was decided in it (an unrestricted twin received data the restricted sibling had to be denied, or a denied single-target call or an unauthenticated call was judged) and its sequence of schedule points is new. Mode 'idle' (40 / 640 trials): server with a 50-150 ms send timeout, a restricted '*' STREAM subscriber (every third block updates_only) and an unrestricted twin; after both are drained the last item the restricted sender processes is an update / delete / Reset / Remove of a DENIED target (receipt confirmed on the twin), then 3.5 send timeouts of silence, then an update of an authorised target must be delivered on a still-live RPC; an idle trial is distinct non-trivial when the probe ran to a verdict.",
 		Assumptions: []string{
 			"the ACL is a pure function of (user, target) for the duration of a trial; the user is whatever NewRPCACL reads from the stream context",
 			"one writer goroutine per target (the collector's discipline); a writer removes and re-adds only its own target",
@@ -1283,6 +1546,7 @@ func main() {
 			"completeness is judged (a) under churn: leaves of authorised targets that existed before the call and were never deleted precede the sync; (b) at logical quiescence (sentinel per target rewritten until received; a sentinel of an authorised target not delivered within 40 s on an otherwise idle system is an attributable violation): replay == cache restricted to authorised targets, and == the unrestricted twin's log restricted likewise; (c) on the unchanging cache for ONCE/POLL. updates_only subscribers are owed only leaves whose last write began after their sync_response was sent",
 			"leaf and subscription path shapes are C04's, for which 'compatible' (streaming) and 'selected by a query' coincide; per-leaf value order, sync placement and POLL round counts are C04's / C05's clauses and are not asserted here",
 			"schedules are explored by perturbation, not enumerated",
+			"mode 'idle' uses the wall clock only because the server's send timeout is itself a timer: with nothing being sent a correct server has no armed timer, so a longer idle period (load) can only make a wrongly armed one more certain to fire; an RPC end is reported only if the unrestricted twin stayed up and the end recurs on two fresh repetitions with a longer idle period (a send timeout hit by a slow send under load does neither), otherwise the probe is inconclusive",
 		},
 		QuickShards: 8, ThoroughShards: 16,
 		MinDistinctQuick: 100, MinDistinctThorough: 1000,
